@@ -84,6 +84,9 @@ def oracle_core(pid, case, accepted, set_ok, set_errs, solve_errs, calls, sig=No
         elif pid == "C08":
             if not miss:
                 rep = sorted(d for d in solve_errs if d[0].startswith("DUnused"))
+                # an anonymous inline set has no name to print: Wire's message identifies it as "a set" only
+                anon = {i["id"] for i in tree["imports"] if i.get("inline")}
+                unused = [("DUnusedSet", 0) if (u[0] == "DUnusedSet" and u[1] in anon) else u for u in unused]
                 if sorted(unused) != rep:
                     out_msgs.append("unused direct items %s but reported %s" % (sorted(unused), rep))
                 if unused and accepted:
